@@ -37,6 +37,9 @@ var (
 	// WrapReaderFn / WrapWriterFn may wrap copy streams.
 	WrapReaderFn func(r io.Reader) io.Reader
 	WrapWriterFn func(w io.Writer) io.Writer
+	// ExitFn is called right before os.Exit in command code; it may
+	// panic to unwind an in-process command instead of ending the process.
+	ExitFn func(code int)
 )
 
 func Yield(point string, inst interface{}) {
@@ -87,6 +90,12 @@ func WrapReader(r io.Reader) io.Reader {
 		return f(r)
 	}
 	return r
+}
+
+func Exit(code int) {
+	if f := ExitFn; f != nil {
+		f(code)
+	}
 }
 
 func WrapWriter(w io.Writer) io.Writer {
